@@ -364,7 +364,43 @@ def r4_container_matrix(ctx, rep):
     c02.r4_masking(ctx, rep)
 
 
+def r5_character_slots(ctx, rep):
+    """character(len, kind): each of the two parameter slots is filled at most once while the selector
+    list is scanned (named parameters in any order, positional ones first len then kind)."""
+    py = ctx.py
+    fn = py.func("sourceform.parse_type")
+    loops = [n for n in ast.walk(fn) if isinstance(n, ast.For) and ast.unparse(n.iter) == "args"]
+    if not loops:
+        raise AnalysisError("parse_type: loop over the character selector not found")
+    n = 0
+    for st in ast.walk(loops[0]):
+        if isinstance(st, ast.Assign) and ast.unparse(st.targets[0]) in ("length", "kind") and st in [
+                x for b in ast.walk(loops[0]) if isinstance(b, ast.If) for x in b.body]:
+            slot = ast.unparse(st.targets[0])
+            # skip re-normalisation of an already chosen value (kind = QUOTES_RE.sub(...kind))
+            if re.search(r"\b%s\b" % slot, ast.unparse(st.value)) and "group" not in ast.unparse(st.value):
+                continue
+            n += 1
+            p = st
+            guarded = False
+            while p is not loops[0]:
+                child = p
+                p = py.parents[p]
+                if isinstance(p, ast.If) and child in p.body and f"{slot} is None" in ast.unparse(p.test):
+                    guarded = True
+            rep.ob(f"parse_type: `{ast.unparse(st)[:50]}` fills an empty slot", guarded,
+                   f"guarded by `{slot} is None`" if guarded else
+                   f"`{ast.unparse(st)[:60]}` can overwrite a {slot} that was already set: in `character(10, 4)` the "
+                   f"positional kind 4 matches the length pattern and replaces the length", py.nloc(st))
+    if n < 4:
+        raise AnalysisError(f"parse_type: only {n} slot assignments found")
+    t = ast.unparse(fn)
+    ok = "if length is None:\n" in t and "length = '1'" in t
+    rep.ob("parse_type: default character length is 1", ok, "", py.nloc(fn), nontrivial=False)
+
+
 RULES = [
+    RuleSpec("C01.R5", r5_character_slots, "character selector slots are filled at most once", floor=4),
     RuleSpec("C01.R1", r1_case_neutral, "case-neutral recognition", floor=45),
     RuleSpec("C01.R2", r2_lower_discipline, "lower-case discipline for keyword comparisons", floor=25),
     RuleSpec("C01.R4", r4_container_matrix, "container x construct matrix", floor=60),
